@@ -14,6 +14,7 @@ CONSTANTS
     PrefixedWhiteoutLookup = TRUE
     OpaqueByMode = TRUE
     WhiteoutAttr = TRUE
+    MemWhiteoutAttr = TRUE
     WriterDropsToc = TRUE
 SPECIFICATION MonSpec
 INVARIANTS MonListingIsTranslation MonListedIffLookup MonWhiteoutShape MonChildAttr MonInodesUniqueStable MonOpaqueXattr MonStateFileJSON MonStateDirHidden
